@@ -107,9 +107,11 @@ class Gen:
                 return 'ri %d' % r.choice([0, -1, 2 ** 53 + 1, -2 ** 63, 2 ** 63 - 1, r.randint(-10 ** 6, 10 ** 6)])
             if c < 0.75:
                 return 'rs ' + hx(self.string())
-            if c < 0.82:
+            if c < 0.80:
                 return 'rc'
-            if c < 0.86:
+            if c < 0.84:
+                return 'rbm ' + hx(self.string())     # a value whose MarshalJSON fails with an arbitrary error text (control bytes, invalid UTF-8)
+            if c < 0.87:
                 return 'rf'
             if c < 0.93:
                 return 'rst %d %s' % (r.randint(-5, 5), hx(self.string()))
